@@ -3919,9 +3919,10 @@ def from_parquet(
         dataset = _ParquetFileDataset(source, row_groups, columns, use_threads, options)
 
     if dataset.is_empty:
-        return ak.layout.RecordArray(
+        out = ak.layout.RecordArray(
             [ak.layout.EmptyArray() for _ in dataset.columns], dataset.columns, 0
         )
+        return ak._util.maybe_wrap(out, behavior, highlevel)
 
     if lazy:
         lazy_cache, hold_cache = _regularize_lazy_cache(lazy_cache)
